@@ -976,9 +976,65 @@ def run(index: RepoIndex, rep) -> None:
     from .c01 import membership
     membership(index, rep, 'C15.R7')
     # Space checks dtype compatibility on construction
+    # which numpy kind each space type admits: CATEGORICAL / DISCRETE integer, CONTINUOUS
+    # floating -- read as a table over the members of SpaceType from either spelling (a chain
+    # of `space_type is SpaceType.X` returns, or a lookup in a module-level table)
     sp = index.func(RSP, 'is_dtype_compatible')
-    txt = src(sp.node)
-    rep.check('SpaceType.CATEGORICAL' in txt and 'is_dtype_integer' in txt and
-              'is_dtype_floating' in txt, 'C15.R4', RSP, 'is_dtype_compatible', sp.node.lineno,
-              'is_dtype_compatible', 'space dtype compatibility no longer distinguishes '
-              'integer and floating kinds', 'dtype compatibility table')
+    from ..guards import expand_under, strip_iter, truth_under
+    from .c20 import _dtype_by_space_type
+    xp, tp = [a_.arg for a_ in sp.node.args.args[:2]]
+    wsp = walk_function(sp.node)
+    KIND = {'np.integer': 'integer', 'np.floating': 'floating', 'numpy.integer': 'integer',
+            'numpy.floating': 'floating'}
+
+    def kind_leaf(x: ast.AST):
+        t = src(x)
+        if t in KIND:
+            return KIND[t]
+        if t == f'is_dtype_integer({xp})':
+            return 'integer'
+        if t == f'is_dtype_floating({xp})':
+            return 'floating'
+        if isinstance(x, ast.Call) and src(x.func) in ('np.issubdtype', 'numpy.issubdtype') and \
+                len(x.args) == 2 and src(x.args[0]) == f'{xp}.dtype' and src(x.args[1]) in KIND:
+            return KIND[src(x.args[1])]
+        return None
+    got_kinds = {}
+    for mem in index.enum('SpaceType').members:
+        def at(a_, mem=mem):
+            if isinstance(a_, ast.Compare) and len(a_.ops) == 1 and src(a_.left) == tp and \
+                    src(a_.comparators[0]).startswith('SpaceType.'):
+                same = src(a_.comparators[0]) == f'SpaceType.{mem}'
+                if isinstance(a_.ops[0], (ast.Is, ast.Eq)):
+                    return same
+                if isinstance(a_.ops[0], (ast.IsNot, ast.NotEq)):
+                    return not same
+            return None
+
+        def no_raise(fm):
+            return False if fm[0] == 'raises' else None     # a member is a key of the table
+        val = None
+        for e_ in wsp.events:
+            if e_.kind in ('return', 'raise') and \
+                    truth_under(strip_iter(e_.guard), at, no_raise) is True:
+                if e_.kind == 'return' and e_.value is not None:
+                    val = expand_under(wsp, e_.value, at, other=no_raise)
+                break
+        if val is None:
+            got_kinds[mem] = None
+            continue
+        k_ = kind_leaf(val)
+        if k_ is None and isinstance(val, ast.Call) and \
+                src(val.func) in ('np.issubdtype', 'numpy.issubdtype') and len(val.args) == 2 \
+                and src(val.args[0]) == f'{xp}.dtype':
+            tbl = _dtype_by_space_type(index, sp, val.args[1], '', st=tp, leaf=kind_leaf)
+            k_ = tbl.get(mem) if tbl else None
+        got_kinds[mem] = k_
+    if any(v_ is None for v_ in got_kinds.values()):
+        raise AnalysisError(f'is_dtype_compatible: the kind admitted per space type is not '
+                            f'readable ({got_kinds})')
+    rep.check(got_kinds == {'CATEGORICAL': 'integer', 'DISCRETE': 'integer',
+                            'CONTINUOUS': 'floating'}, 'C15.R4', RSP, 'is_dtype_compatible',
+              sp.node.lineno, str(got_kinds),
+              f'space dtype compatibility is {got_kinds}, documented: categorical and discrete '
+              f'spaces hold integers, continuous ones floats', 'dtype compatibility table')
